@@ -354,10 +354,11 @@ def run(ctx):
         S.run(rr, f, S.St(user=()))
         nst += rr.n
     nretry = 0
+    rh = c06.retry_helpers(P)
     for f in P.fns_in("tcp/tconnect.c"):
-        if any(True for c in f.calls("track_connect_next")):
+        if any(True for c in f.calls("track_connect_next")) or any((f.nodes[c].get("callee") or "") in rh for c in f.calls()):
             r3.instance("%s: retry" % f.name)
-            rr = c06.RetryRule(r3, "track_connect_next")
+            rr = c06.RetryRule(r3, "track_connect_next", rh)
             C.explore(f, rr)
             nretry += rr.n
     if nst < 6 or nretry < 6:
@@ -569,6 +570,7 @@ def run(ctx):
         r5.violation("process_in_progress:overall-timeout", "expiry of the overall resolver timer does not mark the query failed", loc=pip.file)
 
     tpc = P.fn("track_process_connecting")
+    rh5 = c06.retry_helpers(P)
     r5.instance("track_process_connecting: attempt timeout")
     okt = False
     for b, lab, call in expiry_edges(tpc):
@@ -583,6 +585,15 @@ def run(ctx):
                     nxt = True
                 if m["k"] == "call" and m.get("callee") == "track_abort_connect":
                     ab = True
+                # a helper that records the reason it is given, aborts and moves on: track_fail_connect(track, ETIMEDOUT)
+                if m["k"] == "call" and (m.get("callee") or "") in rh5:
+                    hd = P.resolve_direct(tpc, m["callee"])
+                    if any(C.const_of(tpc, a) == ETIMEDOUT for a in m["args"]):
+                        st_reason = True
+                    if hd is not None and any(True for _ in hd.calls("track_connect_next")):
+                        nxt = True
+                    if hd is not None and any(True for _ in hd.calls("track_abort_connect")):
+                        ab = True
         if st_reason and nxt and ab:
             okt = True
     if okt:
